@@ -413,11 +413,12 @@ Section Api.
       query_run exec_order_by s tbl = Ok rows.
   Proof.
     intros Hw Hf Hr Hs.
-    set (ctx := {| c_data := api_data wrapped doc; c_ctes := []; c_busy := [] |}).
+    set (ctx := {| c_data := api_data wrapped doc; c_ctes := []; c_busy := []; c_up := [] |}).
     change (api_run call join (S n) wrapped doc (SSelect s)) with
       (let! v := catch_panic (exec_step (exec call join n) call join ctx (JStmt (SSelect s))) in
        match v with VArr l => Ok l | _ => Ok [v] end).
-    rewrite (select_from_table (exec call join n) call join ctx s k rest tbl Hw Hf eq_refl Hr).
+    rewrite (select_from_table (exec call join n) call join ctx s k rest tbl Hw Hf eq_refl
+               (up_read_nil ctx (k :: rest) eq_refl) Hr).
     cbn [exec_step].
     destruct (run_select_sem (exec call join n) call join ctx s tbl Hs) as (rows & Hrun & Hsem & Hq).
     exists rows. rewrite Hrun. cbn [catch_panic bind]. auto.
